@@ -35,9 +35,9 @@ Record rule := {
   r_ref : Z          (* RefResource *)
 }.
 
-(* IsValidRule: `rule.Threshold < 0` is the only test that can fail for the rules modelled here
-   (a NaN threshold is accepted by that comparison, as in Go) *)
-Definition rule_valid (r : rule) : bool := negb (r_thr r <? 0)%float.
+(* IsValidRule: `math.IsNaN(rule.Threshold)` and `rule.Threshold < 0` are the only tests that can fail
+   for the rules modelled here *)
+Definition rule_valid (r : rule) : bool := (r_thr r =? r_thr r)%float && negb (r_thr r <? 0)%float.
 
 (* base.CheckValidityForReuseStatistic, with its three kinds of error *)
 Inductive validity := VOk | VIllegal | VIllegalGlobal | VNonReusable.
